@@ -71,6 +71,43 @@ theorem conj_zero_relation (g10 g11 a b : GQ) (hre : g10.im = 0)
   · linarith
   · linarith
 
+theorem column_step_zeroes_target_aux (tol : Rat) (htol : 0 < tol) (M : Mat) (i j : Nat) (G : G2)
+    (hi : i < M.length) (hj : 1 ≤ j) (hrow : j < (M.getD i []).length)
+    (hexa : small tol (M.get i (j - 1)).conj = true → (M.get i (j - 1)).conj = 0)
+    (hexb : small tol (M.get i j).conj = true → (M.get i j).conj = 0)
+    (hreal : realish tol (M.get i (j - 1)).conj (M.get i j).conj = true →
+      (M.get i (j - 1)).conj.im = 0 ∧ (M.get i j).conj.im = 0)
+    (hG : givensElems tol (M.get i (j - 1)).conj (M.get i j).conj true = .ok G) :
+    (rotateCols M G (j - 1) j).get i j = 0 := by
+  rw [rotateCols_get M G (j - 1) j i j hi (by omega) hrow (by omega)]
+  simp only [if_true]
+  unfold givensElems at hG
+  cases hC : cosSinPhase tol (M.get i (j - 1)).conj (M.get i j).conj with
+  | error e => simp [hC, bind, Except.bind] at hG
+  | ok t =>
+    obtain ⟨c, s, ph⟩ := t
+    simp only [hC, bind, Except.bind] at hG
+    injection hG with hG; subst hG
+    have hcsp := cosSinPhase_spec htol hexa hexb hC
+    have hz := assemble_zeroes hcsp true _ hreal
+    simp only [G2.Zeroes, if_true] at hz
+    exact conj_zero_relation _ _ _ _ (assemble_g10_real hcsp true _ hreal) hz
+
+theorem column_step_keeps_aux (M : Mat) (G : G2) (i' j x : Nat) (hi : i' < M.length) (hj : 1 ≤ j)
+    (hrow : j < (M.getD i' []).length) :
+    (M.get i' (j - 1) = 0 → M.get i' j = 0 →
+      (rotateCols M G (j - 1) j).get i' (j - 1) = 0 ∧ (rotateCols M G (j - 1) j).get i' j = 0) ∧
+    (x ≠ j → x ≠ j - 1 → (rotateCols M G (j - 1) j).get i' x = M.get i' x) := by
+  constructor
+  · intro h1 h2
+    rw [rotateCols_get M G (j - 1) j i' (j - 1) hi (by omega) hrow (by omega),
+        rotateCols_get M G (j - 1) j i' j hi (by omega) hrow (by omega)]
+    have hne : ¬ (j - 1 = j) := by omega
+    simp only [hne, if_false, if_true, h1, h2, gq_mul_zero, gq_add_zero, and_self]
+  · intro hx1 hx2
+    rw [rotateCols_get M G (j - 1) j i' x hi (by omega) hrow (by omega)]
+    simp [hx1, hx2]
+
 end C11
 end Model
 end OFV
